@@ -46,7 +46,10 @@ CFG = {
         "whole body) plus run-time checks with concurrent callers (disjoint key classes; one writer moving an entry with Update under "
         "concurrent readers); iterWalk takes RLock only after allocating its result slice (it touches no shared state before), which the "
         "syntactic lint cannot express and is therefore an assumption.  The size bound 2^31 is a restriction of the theorems (fuel), "
-        "not of the code.  No axioms."
+        "not of the code.  Calls that panic inside the caller's Less (class I/*/fault) are outside the model's operations: the "
+        "check holds the tree after the recovered panic to the state before the call (same items, well formed, length = item count), "
+        "which btree.go satisfies because every mutation before a comparison (root split, child split) is complete and the length "
+        "field is written only after insert returned.  No axioms."
     ),
     "rule": (
         "one case = one history (wrapper: 20-100 ops; inner tree: 25-150 ops per degree; sweep = all four / all ten scans from "
@@ -76,7 +79,15 @@ CFG = {
         "case is emitted; an operation that is still computing keeps being waited for; in the concurrent classes the same snapshot "
         "is taken for the whole case - every caller still alive waiting on the wrapper's lock at one instant (impossible with a "
         "correctly used lock: a holder is not waiting, a freed lock makes its waiter runnable) is reported as a failing case with the "
-        "operation each caller is in; after 3 such histories the remaining wrapper classes of the run are skipped; non-trivial = at least 4 steps; "
+        "operation each caller is in; after 3 such histories the remaining wrapper classes of the run are skipped; class I/<deg>/fault (degrees 2,3,4,8, generated "
+        "after all other classes): inner-tree histories in which, on a tree that holds items, the harness issues ReplaceOrInsert with "
+        "an item whose Less panics at one particular point - an item of a foreign type (the first comparison, in the root, after a "
+        "possible root split), an item below every key whose Less panics when it meets the current minimum key (the last comparison, "
+        "in the leftmost leaf, after every split on the way down), or one that panics at its n-th comparison, n <= number of levels - "
+        "and recovers from the panic; such a call has not returned and stored nothing, so it is NOT a step of the Coq term (the model "
+        "in which nothing happened is the reference): the next steps are Len with the actual tree (items, balance, length field) and a "
+        "full Ascend / Descend, and the history goes on; the step text names the faulted call; a faulted call that returns ends the "
+        "history without a verdict; non-trivial = at least 4 steps; "
         "distinct = distinct Coq term (ops + observed results + observed shapes)"
     ),
     "trusted": [
@@ -88,7 +99,7 @@ CFG = {
         "each wrapper method is one critical section of rw (lint: Insert/Update/UpdateOrInsert/Delete under Lock, Get under RLock; "
         "iterWalk: RLock taken after the local slice allocation, before the tree is touched - read from the source, not lintable)",
         "sync.RWMutex gives writers exclusion and readers a consistent tree (Go runtime)",
-        "Item.Less is a strict weak order on keys (the harness's kv type compares integer keys)",
+        "Item.Less is a strict weak order on keys (the harness's kv type compares integer keys); in class I/*/fault the item of a faulted ReplaceOrInsert has a Less that panics, and that call is required to leave the tree as it was",
         "trees hold fewer than 2^31 items (the model's recursion fuel is proved sufficient below that size)",
         "the heap-level model C03_Heap.v renders btree.go's pointer code faithfully (proved equal to the functional model; the functional model is what the correspondence check ties to the code, incl. per-node ownership flags being closed upwards)",
     ],
